@@ -12,7 +12,7 @@ from ..own import Ownership
 from ..symx import Expander
 from ..anf import R
 from .. import anf
-from .common import struct_ob, formula_ob, guard, last_return
+from .common import struct_ob, formula_ob, guard, last_return, U
 from ..report import AnalysisError
 
 REL = "inference/pdf/hdi.py"
@@ -45,7 +45,7 @@ def run(prog, tier):
     src = {}
     for st in ast.walk(fn):
         if isinstance(st, ast.Assign) and len(st.targets) == 1:
-            src.setdefault(ast.unparse(st.targets[0]), []).append(st)
+            src.setdefault(U(st.targets[0]), []).append(st)
     def one(name):
         if name not in src or len(src[name]) != 1:
             raise AnalysisError(f"anchor vanished: single definition of `{name}` in sample_hdi")
@@ -57,7 +57,7 @@ def run(prog, tier):
     obs.append(formula_ob("window-offset", construct + "[L]", L, anf.fn_("int", R.sym("fraction") * n), REL, Ldef.lineno,
                           what="window offset L = int(fraction * n_samples)"))
     w = one("widths").value
-    ok, why = False, ast.unparse(w)
+    ok, why = False, U(w)
     if isinstance(w, ast.BinOp) and isinstance(w.op, ast.Sub) and isinstance(w.left, ast.Subscript) and isinstance(w.right, ast.Subscript):
         def row_slice(sub):
             sl = sub.slice.elts[0] if isinstance(sub.slice, ast.Tuple) else sub.slice
@@ -65,7 +65,7 @@ def run(prog, tier):
             full = all(isinstance(r, ast.Slice) and r.lower is None and r.upper is None and r.step is None for r in rest)
             return sl, full
         (a, fa), (b, fb) = row_slice(w.left), row_slice(w.right)
-        same_base = ast.unparse(w.left.value) == ast.unparse(w.right.value) == "s"
+        same_base = U(w.left.value) == U(w.right.value) == "s"
         if isinstance(a, ast.Slice) and isinstance(b, ast.Slice) and fa and fb and same_base \
                 and a.step is None and b.step is None and a.upper is None and b.lower is None:
             lo = guard(lambda: ex.eval(a.lower, {"L": R.sym("L"), "n_samples": n}))
@@ -78,42 +78,42 @@ def run(prog, tier):
                          REL, one("widths").lineno))
     # the upper end is fetched with the same offset
     stores = [s for s in ast.walk(fn) if isinstance(s, ast.Assign) and isinstance(s.targets[0], ast.Subscript)
-              and ast.unparse(s.targets[0].value) == "hdi"]
+              and U(s.targets[0].value) == "hdi"]
     tk = {}
     for s in stores:
-        row = ast.unparse(s.targets[0].slice.elts[0]) if isinstance(s.targets[0].slice, ast.Tuple) else ast.unparse(s.targets[0].slice)
+        row = U(s.targets[0].slice.elts[0]) if isinstance(s.targets[0].slice, ast.Tuple) else U(s.targets[0].slice)
         for c in ast.walk(s.value):
-            if isinstance(c, ast.Call) and ast.unparse(c.func) == "take_along_axis":
+            if isinstance(c, ast.Call) and U(c.func) == "take_along_axis":
                 tk[row] = c
     ok = False
-    why = f"{ {k: ast.unparse(v) for k, v in tk.items()} }"
+    why = f"{ {k: U(v) for k, v in tk.items()} }"
     if set(tk) == {"0", "1"}:
-        i0, i1 = ast.unparse(tk["0"].args[1]), ast.unparse(tk["1"].args[1])
-        ok = (ast.unparse(tk["0"].args[0]) == "s" and ast.unparse(tk["1"].args[0]) == "s"
+        i0, i1 = U(tk["0"].args[1]), U(tk["1"].args[1])
+        ok = (U(tk["0"].args[0]) == "s" and U(tk["1"].args[0]) == "s"
               and i1.replace(" ", "") in (f"{i0}+L", f"L+{i0}"))
     idef = one("i").value
-    oki = ast.unparse(idef) == "expand_dims(widths.argmin(axis=0), axis=0)"
+    oki = U(idef) == "expand_dims(widths.argmin(axis=0), axis=0)"
     obs.append(struct_ob("window-offset", construct + "[ends]", ok and oki,
-                         f"lower end must be s[i] and upper end s[i + L] with i = argmin(widths) per column: {why}; i = `{ast.unparse(idef)}`",
+                         f"lower end must be s[i] and upper end s[i + L] with i = argmin(widths) per column: {why}; i = `{U(idef)}`",
                          REL, fn.lineno))
 
     # ---------------------------------------------------------------- axis discipline
     checks = []
     for c in ast.walk(fn):
         if isinstance(c, ast.Call):
-            f = ast.unparse(c.func)
+            f = U(c.func)
             if f == "s.sort":
                 ax = get_kw(c, "axis", 0)
-                checks.append(("sort", c, ax is not None and ast.unparse(ax) == "0"))
+                checks.append(("sort", c, ax is not None and U(ax) == "0"))
             elif f == "widths.argmin":
                 ax = get_kw(c, "axis", 0)
-                checks.append(("argmin", c, ax is not None and ast.unparse(ax) == "0"))
+                checks.append(("argmin", c, ax is not None and U(ax) == "0"))
             elif f == "take_along_axis":
                 ax = get_kw(c, "axis", 2)
-                checks.append(("take_along_axis", c, ax is not None and ast.unparse(ax) == "0"))
+                checks.append(("take_along_axis", c, ax is not None and U(ax) == "0"))
     for name, c, ok in checks:
         obs.append(struct_ob("axis-discipline", construct + f"[{name}@{c.lineno}]", ok,
-                             f"`{ast.unparse(c)}` must act along axis 0 (the sample axis) so that columns are independent",
+                             f"`{U(c)}` must act along axis 0 (the sample axis) so that columns are independent",
                              REL, c.lineno))
     # the sort precedes the window computation
     sort_line = min([c.lineno for n_, c, ok in checks if n_ == "sort"] or [10 ** 9])
@@ -127,7 +127,7 @@ def run(prog, tier):
     obs.append(struct_ob("endpoints-are-samples", construct, ok and len(stores) == 4,
                          "both end points must be sample values selected by index (no arithmetic on the values), which is what "
                          "makes the result covariant under positive affine maps", REL, fn.lineno,
-                         slots={"stores": [ast.unparse(s) for s in stores]}))
+                         slots={"stores": [U(s) for s in stores]}))
 
     meta = {
         "explanation": "Ownership analysis of sample_hdi (copy before resize/sort; a removed copy is reported), normal-form "
@@ -142,7 +142,7 @@ def run(prog, tier):
 def _inside_index(root, node):
     """True if node lies inside a subscript index or a call argument that is an index expression (i + L)."""
     for n in ast.walk(root):
-        if isinstance(n, ast.Call) and ast.unparse(n.func) == "take_along_axis":
+        if isinstance(n, ast.Call) and U(n.func) == "take_along_axis":
             for a in n.args[1:]:
                 if any(x is node for x in ast.walk(a)):
                     return True
